@@ -7,6 +7,7 @@ type GradContext struct {
 	bpdirty   bool
 	gradient  tensor.Tensor
 	backEdges []*backwardEdge
+	pending   int // back edges that still have to deliver a gradient in the running back-propagation
 }
 
 type backwardEdge struct {
